@@ -523,7 +523,15 @@ fn write_detection_draft(repo: &Path, detections: &[Detection]) -> io::Result<Pa
             "# {} @ {} ({})",
             detection.pattern, location, short_oid
         )?;
-        writeln!(out, "{}==>{}", detection.value, REDACTION)?;
+        // A value that the rule syntax cannot carry literally (it would read as a comment, be split at
+        // an inner `==>`, or be taken for a regex:/glob: rule) is written as an escaped regex rule.
+        let v = &detection.value;
+        if v.starts_with('#') || v.contains("==>") || v.starts_with("regex:") || v.starts_with("glob:") {
+            let escaped = regex::escape(v).replace("==>", "==\\x3e");
+            writeln!(out, "regex:{}==>{}", escaped, REDACTION)?;
+        } else {
+            writeln!(out, "{}==>{}", v, REDACTION)?;
+        }
     }
 
     Ok(output_path)
